@@ -3,7 +3,7 @@
    the documentation only).  Statements only; proofs are `exact <lemma of LayoutProofs>`. *)
 From Coq Require Import ZArith List Bool Lia.
 Import ListNotations.
-From XO Require Import Slots Strides Perm BufOps Types Format Check LayoutProofs RoundTrip Complete Address.
+From XO Require Import Slots Strides Perm BufOps Types Format Check LayoutProofs RoundTrip Complete UpdateAt Address.
 Open Scope Z_scope.
 
 (* header words: 8-byte little-endian two's complement, exact on the whole int64 range *)
@@ -70,9 +70,19 @@ Theorem C05_checker_complete : forall c img, has_refs (lc_ty c) = false ->
   cells_match img (lc_bytes c) = true -> layout_ok c = None.
 Proof. exact layout_ok_complete. Qed.
 
+(* the judgement used for freshly built objects that hold references (whole buffer): sound and complete *)
+Theorem C05_reference_holders_checker_sound : forall c, heap_img_ok c = None ->
+  exists img, enc (hc_ty c) (hc_val c) = Some img /\ len img = hc_size c /\ sits img (hc_mem c) (hc_off c) /\
+    exists v, dec (hc_ty c) (hc_mem c) (hc_off c) = Some (v, hc_size c) /\ val_eqb v (hc_val c) = true.
+Proof. exact heap_img_ok_sound. Qed.
+Theorem C05_reference_holders_checker_complete : forall c img,
+  enc (hc_ty c) (hc_val c) = Some img -> len img = hc_size c -> hc_size c < 2^62 ->
+  sits img (hc_mem c) (hc_off c) -> targets_ok (hc_ty c) (hc_val c) (hc_mem c) (hc_off c) -> heap_img_ok c = None.
+Proof. exact heap_img_ok_complete. Qed.
+
 (* every field, the data area of every array and every dynamically sized item start on a slot boundary
    relative to the object they belong to (positions as computed from the image, CApi/Address.v) *)
-Theorem C05_fields_slot_aligned : forall fs es i, Address.field_off fs es i mod 8 = 0.
+Theorem C05_fields_slot_aligned : forall fs es i, UpdateAt.field_off fs es i mod 8 = 0.
 Proof. exact Address.field_off_aligned. Qed.
 Theorem C05_array_data_slot_aligned : forall st shape, arr_header st shape mod 8 = 0.
 Proof. exact Address.arr_header_aligned. Qed.
@@ -108,3 +118,5 @@ Print Assumptions C05_checker_complete.
 Print Assumptions C05_fields_slot_aligned.
 Print Assumptions C05_array_data_slot_aligned.
 Print Assumptions C05_dynamic_items_slot_aligned.
+Print Assumptions C05_reference_holders_checker_sound.
+Print Assumptions C05_reference_holders_checker_complete.
